@@ -132,3 +132,17 @@ theorem C04_shift_clears_component (cfg : Cfg) (shift : Rat) (ci : Nat) (g : G) 
   grind
 
 end Autog
+
+namespace Autog
+
+/-- executable form of `BlockWide` (driver contract `K:sc-blockwidth`) -/
+def blockWideb (g : G) (bw : Array Rat) (roots : Array Nat) : Bool :=
+  (g.layers.toList.flatMap (·.nodes)).all fun n => decide ((g.node n).w ≤ bw.getD (roots.getD n n) 0)
+
+theorem blockWideb_sound (g : G) (bw : Array Rat) (roots : Array Nat) (h : blockWideb g bw roots = true) :
+    BlockWide g bw roots := by
+  unfold blockWideb at h
+  simp only [List.all_eq_true, decide_eq_true_eq] at h
+  exact h
+
+end Autog
